@@ -5,6 +5,7 @@ import (
 	"encoding/json"
 	"fmt"
 	"os"
+	"os/exec"
 	"strings"
 
 	"verif/harness/evid"
@@ -22,6 +23,85 @@ func register(id, level string, run func(*evid.Run), replay func(json.RawMessage
 	checks[id] = check{level, run, replay}
 }
 
+// engineChecks run real dragonboat engines: a panic in one of its goroutines kills the process, so
+// they run in a child process and the parent turns "child died" into an observation.
+var engineChecks = map[string]bool{"C05": true, "C07": true, "C16": true, "C17": true}
+
+func supervise(id, level string) int {
+	_ = os.Remove(evid.JournalPath(id))
+	cmd := exec.Command(os.Args[0], os.Args[1:]...)
+	cmd.Env = append(os.Environ(), "VERIF_CHILD=1")
+	cmd.Stdout = os.Stdout
+	var errBuf tailBuffer
+	cmd.Stderr = &errBuf
+	err := cmd.Run()
+	code := 0
+	if err != nil {
+		code = 2
+		if ee, ok := err.(*exec.ExitError); ok {
+			code = ee.ExitCode()
+		}
+	}
+	tail := errBuf.String()
+	crashed := strings.Contains(tail, "panic:") || strings.Contains(tail, "fatal error:") || code < 0 || code > 2
+	if code == 0 || code == 1 || !crashed {
+		if code >= 2 {
+			fmt.Fprint(os.Stderr, tail)
+		}
+		return code
+	}
+	// the serving process died: that is an observation about the code under test
+	r := evid.NewRun(id, level)
+	j, _ := os.ReadFile(evid.JournalPath(id))
+	first := tail
+	if i := strings.Index(first, "panic:"); i >= 0 {
+		first = first[i:]
+	} else if i := strings.Index(first, "fatal error:"); i >= 0 {
+		first = first[i:]
+	}
+	if k := strings.IndexByte(first, '\n'); k > 0 {
+		first = first[:k]
+	}
+	if len(first) > 100 {
+		first = first[:100]
+	}
+	r.Rule("worker process died before completing; see detail")
+	r.Sample(map[string]any{"in_flight": string(j)})
+	r.Outcome("died", true)
+	r.Outcome("died2", true)
+	r.Violate("process-died/"+first, fmt.Sprintf("in flight: %s; stderr tail: %s", string(j), lastLines(tail, 25)), map[string]any{"in_flight": string(j)})
+	return r.Finish()
+}
+
+type tailBuffer struct{ b []byte }
+
+func (t *tailBuffer) Write(p []byte) (int, error) {
+	t.b = append(t.b, p...)
+	if len(t.b) > 1<<20 {
+		t.b = t.b[len(t.b)-(1<<19):]
+	}
+	return len(p), nil
+}
+func (t *tailBuffer) String() string { return string(t.b) }
+
+func lastLines(s string, n int) string {
+	lines := strings.Split(s, "\n")
+	// keep the first lines after "panic:" rather than the very end (goroutine dumps are long)
+	for i, l := range lines {
+		if strings.HasPrefix(l, "panic:") || strings.HasPrefix(l, "fatal error:") {
+			end := i + n
+			if end > len(lines) {
+				end = len(lines)
+			}
+			return strings.Join(lines[i:end], " | ")
+		}
+	}
+	if len(lines) > n {
+		lines = lines[len(lines)-n:]
+	}
+	return strings.Join(lines, " | ")
+}
+
 func main() {
 	if len(os.Args) < 3 {
 		fmt.Fprintln(os.Stderr, "usage: verifx check <Cxx> | verifx replay <file>")
@@ -34,6 +114,9 @@ func main() {
 		if !ok {
 			fmt.Fprintf(os.Stderr, "unknown check %s\n", id)
 			os.Exit(2)
+		}
+		if engineChecks[id] && os.Getenv("VERIF_CHILD") == "" {
+			os.Exit(supervise(id, c.level))
 		}
 		r := evid.NewRun(id, c.level)
 		c.run(r)
